@@ -80,7 +80,17 @@ def ensure_import(filename, imports, recorder: ChangeRecorder):
     assert isinstance(tree, ast.Module)
 
     last_import = None
-    for node in tree.body:
+    for index, node in enumerate(tree.body):
+        if (
+            index == 0
+            and isinstance(node, ast.Expr)
+            and isinstance(node.value, ast.Constant)
+            and isinstance(node.value.value, str)
+        ):
+            # the module docstring has to stay the first statement
+            # and `from __future__ import ...` has to follow it directly
+            last_import = node
+            continue
         if not isinstance(node, (ast.ImportFrom, ast.Import)):
             break
         last_import = node
